@@ -37,7 +37,7 @@ class SymBuilder:
             c = z3.Const(full, sort)
             self.symbols[name] = c
             return c
-        f = z3.Function(full, *[z3.IntSort()] * len(allidx), sort)
+        f = z3.Function(full, *[t.sort() if z3.is_expr(t) else z3.IntSort() for t in allidx], sort)
         self.symbols[name] = f
         return f(*allidx)
 
@@ -82,7 +82,7 @@ class SymBuilder:
             if head == "List":
                 ln = self._sym(z3.IntSort(), name + ".len", idx)
                 if idx or self.ctx:
-                    vs = [z3.Int(f"wf{j}") for j in range(len(idx) + len(self.ctx))]
+                    vs = [z3.Const(f"wfc{j}", t.sort()) for j, t in enumerate(self.ctx)] + [z3.Int(f"wf{j}") for j in range(len(idx))]
                     f = self.symbols[name + ".len"]
                     self.wf.append(z3.ForAll(vs, f(*vs) >= 0))
                 else:
@@ -211,3 +211,35 @@ def length_constraints(v: V, B: int, depth=4):
         for x in v.fields.values():
             out += length_constraints(x, B, depth - 1)
     return out
+
+
+def flatten_terms(v: V):
+    """z3 terms determining a value (None if it contains a symbolic list or an unmodelled part)"""
+    if isinstance(v, (Num, Bool, Opq)):
+        return [v.t]
+    if isinstance(v, Str):
+        return [v.t]
+    if isinstance(v, NoneV):
+        return []
+    if isinstance(v, Opt):
+        inner = flatten_terms(v.val)
+        return None if inner is None else [v.isnone] + inner
+    if isinstance(v, Tup) or (isinstance(v, Lst) and v.concrete):
+        out = []
+        for x in v.items:
+            f = flatten_terms(x)
+            if f is None:
+                return None
+            out += f
+        return out
+    if isinstance(v, Obj):
+        out = []
+        for k in sorted(v.fields):
+            f = flatten_terms(v.fields[k])
+            if f is None:
+                return None
+            out += f
+        return out
+    if isinstance(v, Dct) and not v.pairs:
+        return []
+    return None
